@@ -274,6 +274,136 @@ std::string do_pw(const std::vector<std::string>& t) {
   }
 }
 
+// ---- SADM frames (C19) ----
+template <typename T, typename IdT> void add_changed(ChangedIds& c, Rng& r) {
+  static const ChangedIdStatus st[] = {ChangedIdStatus::NEW, ChangedIdStatus::CHANGED, ChangedIdStatus::EXTENDED, ChangedIdStatus::EXPIRED};
+  unsigned n = rnd(r, 3);
+  for (unsigned i = 0; i < n; ++i) {
+    auto id = Gen<IdT>::make(r);
+    if (id) c.add(ChangedId<T>(*id, st[rnd(r, 4)]));
+  }
+}
+ChangedIds gen_changed(Rng& r) {
+  ChangedIds c;
+  add_changed<AudioChannelFormat, AudioChannelFormatId>(c, r);
+  add_changed<AudioPackFormat, AudioPackFormatId>(c, r);
+  add_changed<AudioTrackUid, AudioTrackUidId>(c, r);
+  add_changed<AudioTrackFormat, AudioTrackFormatId>(c, r);
+  add_changed<AudioStreamFormat, AudioStreamFormatId>(c, r);
+  add_changed<AudioObject, AudioObjectId>(c, r);
+  add_changed<AudioContent, AudioContentId>(c, r);
+  add_changed<AudioProgramme, AudioProgrammeId>(c, r);
+  return c;
+}
+FrameHeader gen_header(Rng& r, TimeReference tr) {
+  FrameFormatId id = rnd(r, 2) ? FrameFormatId(FrameIndex(1u + rnd(r, 0xfffffff0u)))
+                               : FrameFormatId(FrameIndex(1u + rnd(r, 100000)), ChunkIndex(1u + rnd(r, 255)));
+  static const FrameType fts[] = {FrameType::HEADER, FrameType::FULL, FrameType::DIVIDED, FrameType::INTERMEDIATE, FrameType::ALL};
+  FrameFormat ff(id, Start(RawGen<Time>::make(r)), Duration(RawGen<Time>::make(r)), fts[rnd(r, 5)]);
+  fill_FrameFormat(ff, r);             // NumMetadataChunks, CountToSameChunk, FlowId, CountToFull, FrameType, ...
+  if (rnd(r, 2)) ff.set(gen_changed(r));
+  ff.set(tr);
+  if (rnd(r, 3) == 0) ff.unset<TimeReference>();        // the default is `total`
+  FrameHeader h(ff);
+  if (rnd(r, 2)) {
+    ProfileList pl;
+    unsigned n = rnd(r, 3);
+    for (unsigned i = 0; i < n; ++i)
+      pl.add(Profile(ProfileValue(RawGen<std::string>::make(r)), ProfileName(RawGen<std::string>::make(r)),
+                     ProfileVersion(RawGen<std::string>::make(r)), ProfileLevel(RawGen<std::string>::make(r))));
+    h.set(pl);
+  }
+  unsigned nt = rnd(r, 3);
+  for (unsigned i = 0; i < nt; ++i) {
+    TransportTrackFormat t{TransportId(TransportIdValue(1u + i))};
+    fill_TransportTrackFormat(t, r);
+    unsigned na = rnd(r, 3);
+    for (unsigned k = 0; k < na; ++k) {
+      AudioTrack a{TrackId(1u + k)};
+      fill_AudioTrack(a, r);
+      t.add(a);
+    }
+    h.add(t);
+  }
+  return h;
+}
+xml::SadmWriterOptions sopts(const std::string& core, const std::string& dflt) {
+  xml::SadmWriterOptions o = xml::SadmWriterOptions::none;
+  if (core == "1") o = o | xml::SadmWriterOptions::core_metadata;
+  if (dflt == "1") o = o | xml::SadmWriterOptions::write_default_values;
+  return o;
+}
+size_t count_of(const std::string& s, const std::string& pat) {
+  size_t n = 0, i = 0;
+  while ((i = s.find(pat, i)) != std::string::npos) { ++n; i += pat.size(); }
+  return n;
+}
+// frame d <core 0|1> <dflt 0|1> <local 0|1> <seed>: write the document as an SADM frame with a random header,
+// read header and document back, write again; then the time reference rules
+std::string do_frame(World& w, const std::vector<std::string>& t) {
+  auto d = w.doc(t.at(1));
+  Rng rng(static_cast<unsigned>(std::stoul(t.at(5))));
+  TimeReference tr = t.at(4) == "1" ? TimeReference::LOCAL : TimeReference::TOTAL;
+  FrameHeader h = gen_header(rng, tr);
+  bool effective_local = h.get<FrameFormat>().get<TimeReference>() == TimeReference::LOCAL;
+  auto so = sopts(t.at(2), t.at(3));
+  std::string x1;
+  try {
+    std::ostringstream o1;
+    writeXml(o1, d, h, so);
+    x1 = o1.str();
+  } catch (const std::exception& e) {
+    return "ok WRITE-FAILED " + sanitize(e.what());
+  }
+  // block times follow the time reference
+  size_t total_attrs = count_of(x1, " rtime=\"") + count_of(x1, " duration=\"") - count_of(x1, "<audioObject ") * 0;
+  size_t rt = count_of(x1, " rtime=\""), ls = count_of(x1, " lstart=\""), ld = count_of(x1, " lduration=\"");
+  (void)total_attrs;
+  if (effective_local && rt > 0) return "ok TIMEREF rtime written under a local time reference";
+  if (!effective_local && (ls > 0 || ld > 0)) return "ok TIMEREF lstart/lduration written under a total time reference";
+  std::string x2;
+  try {
+    std::istringstream i1(x1);
+    FrameHeader h2 = parseFrameHeader(i1);
+    std::istringstream i2(x1);
+    auto d2 = parseXml(i2, h2);
+    std::ostringstream o2;
+    writeXml(o2, d2, h2, so);
+    x2 = o2.str();
+  } catch (const std::exception& e) {
+    return "ok REPARSE-FAILED " + sanitize(e.what());
+  }
+  if (x1 != x2) return "ok DIFF " + sanitize(first_diff(split_lines(x1), split_lines(x2)));
+  // a frame whose block attributes contradict the header is rejected unless the mismatch is permitted
+  bool has_times = (rt + ls + ld + count_of(x1, "<audioBlockFormat") > 0) && (rt + ls + ld > 0 || count_of(x1, "AB_") > 0);
+  size_t timed = effective_local ? (ls + ld) : rt;      // `duration` also occurs on audioObject
+  if (!effective_local) {
+    // count duration attributes of block formats only
+    size_t pos = 0;
+    while ((pos = x1.find("<audioBlockFormat", pos)) != std::string::npos) {
+      size_t end = x1.find('>', pos);
+      if (x1.substr(pos, end - pos).find(" duration=\"") != std::string::npos) ++timed;
+      pos = end;
+    }
+  }
+  (void)has_times;
+  if (timed > 0) {
+    FrameFormat ff = h.get<FrameFormat>();
+    ff.set(effective_local ? TimeReference::TOTAL : TimeReference::LOCAL);
+    FrameHeader wrong(ff);
+    bool threw = false;
+    try { std::istringstream i3(x1); parseXml(i3, wrong); } catch (const std::exception&) { threw = true; }
+    if (!threw) return "ok MISMATCH-ACCEPTED the frame was accepted with a header of the other time reference";
+    try {
+      std::istringstream i4(x1);
+      parseXml(i4, wrong, xml::ParserOptions::permit_time_reference_mismatch);
+    } catch (const std::exception& e) {
+      return "ok PERMIT-REJECTED " + sanitize(e.what());
+    }
+  }
+  return "ok same timed=" + std::to_string(timed);
+}
+
 // bindcd h d kind ty val ctr: gives the script name h to an element already in document d (common definitions)
 std::string do_bindcd(World& w, const std::vector<std::string>& t) {
   auto doc = w.doc(t.at(2));
@@ -294,6 +424,7 @@ std::string do_bindcd(World& w, const std::vector<std::string>& t) {
 
 bool run_xml_op(World& w, const std::vector<std::string>& t, std::string& r) {
   const std::string& c = t[0];
+  if (c == "frame") { r = do_frame(w, t); return true; }
   if (c == "pw") { r = do_pw(t); return true; }
   if (c == "perturb") { perturb_set(static_cast<unsigned>(std::stoul(t.at(1)))); r = perturb_available() ? "ok" : "ok unavailable"; return true; }
   if (c == "p2w") { r = do_p2w(t); return true; }
